@@ -2,23 +2,29 @@
     modify_patch / set_default_patch / merge_patches / write.
 
     Executable model transcribed from mesh.py, lists/{vertex,block,patch}_list.py, items/patch.py,
-    items/side.py, items/wires/manager.py (WireChopManager.grade), construct/flat/face.py (Face.update).
-    No proofs in this file.
+    items/side.py, construct/flat/face.py (Face.update); Mesh.grade (items/wires/{manager,axis,wire}.py,
+    lists/block_list.py) is the propagation model of Model/Propagate.v (C01/C02), run from the state the
+    previous write left on the blocks (Model/C12_Regrade.v).  No proofs in this file.
 
     Scope of the model (the correspondence is run inside this scope only):
     - every depot entity is a single Operation with straight edges, no projections, no cell zone
       (the 'edges' and 'faces' sections of the file stay empty; the harness checks that they do);
     - positions are integer triples (exact in binary64, so "closer than TOL" is equality);
-    - every axis of every operation carries user chops that fix the count only (c2c_expansion 1),
-      so that every WireManager is a WireChopManager: the grading of the four wires of an axis is the
-      section list [b_acc] of that axis ("per-axis grading accumulation").  An axis without chops
-      would need the propagation of Model/Propagate.v (C01/C02); here it makes write fail [E_undefined].
+    - chops fix the count only (c2c_expansion 1, so every total expansion is 1 and its reciprocal is 1):
+      a chop is its count, a grading is the list of the counts of its sections (the length ratios of a
+      multi-section chop travel with the counts; the harness checks that they do).  An axis may carry
+      several chops or none: an axis without chops takes its gradings from coincident wires and its chops
+      from neighbour axes (WirePropagateManager, Axis.copy_grading), [b_wg] holds the section lists of
+      the twelve wires of a block, [b_ax] the chops copied by its un-chopped axes.
+      The wire corner pairs are those of Model/Propagate.v ([axis_pairs] of [tables] is only compared
+      with them, Properties/C12.v).
 
     The tables of util/constants.py the code consults are parameters ([tables]); their current values
     are tabulated into Gen/C12/Tables.v on every run.  The three repairs delivered with this property
     are switches of [cfg], so that both the repaired and the original behaviour are transcribed:
     the theorems are about [fixed], the refutations about the original code. *)
 From Coq Require Import List Bool Arith ZArith.
+From CB Require Model.Propagate Model.C12_Regrade.
 Import ListNotations.
 
 Definition pos := (Z * Z * Z)%type.
@@ -52,8 +58,9 @@ Definition dvtx : vtx := {| v_pos := dpos; v_key := [] |}.
 Record blk := {
   b_src : nat;                      (* the operation the block was made from (Mesh.assembled after the repair) *)
   b_verts : list nat;               (* Block.vertices as indexes *)
-  b_chops : list (list nat);        (* WireChopManager.chops per axis *)
-  b_acc : list (list nat)           (* per axis: section counts of the gradings of the axis and its wires *)
+  b_chops : list (list nat);        (* the user's chops per axis (WireChopManager.chops; [] = no chop manager) *)
+  b_wg : list (list nat);           (* section counts of the gradings of the 12 wires (axis-major); [] before a grade *)
+  b_ax : list (list nat)            (* per axis without user chops: the chops its WirePropagateManager copied *)
 }.
 Record pat := {
   p_name : nat; p_kind : nat; p_set : list nat;
@@ -172,7 +179,7 @@ Definition lists := (list vtx * list blk * list pat)%type.
 Definition asm_op (tb : tables) (slaves : list nat) (L : lists) (ko : nat * op) : lists :=
   let '(V, B, P) := L in
   let '(V', idx) := add_many V (reqs slaves (snd ko)) in
-  (V', B ++ [{| b_src := fst ko; b_verts := idx; b_chops := o_chops (snd ko); b_acc := [[]; []; []] |}],
+  (V', B ++ [{| b_src := fst ko; b_verts := idx; b_chops := o_chops (snd ko); b_wg := []; b_ax := [] |}],
    add_op_patches tb P (snd ko) idx).
 Definition slaves (s : st) : list nat := map snd (merged s).
 Definition asm_all (tb : tables) (sl : list nat) (l : list (nat * op)) (L : lists) : lists :=
@@ -199,49 +206,51 @@ Fixpoint modify (tb : tables) (ps : list pat) (n kind : nat) (settings : option 
       else p :: modify tb r n kind settings
   end.
 
-(** ** Mesh.grade: WireChopManager.grade on every axis, then the checks *)
-Fixpoint zip_app (a b : list (list nat)) : list (list nat) :=
-  match a, b with
-  | x :: a', y :: b' => (x ++ y) :: zip_app a' b'
-  | _, _ => []
-  end.
-Definition grade_block (c : cfg) (b : blk) : blk :=
-  {| b_src := b_src b; b_verts := b_verts b; b_chops := b_chops b;
-     b_acc := if fx_grade c then zip_app [[]; []; []] (b_chops b) else zip_app (b_acc b) (b_chops b) |}.
+(** ** Mesh.grade: Model/C12_Regrade.v on the block list, from the gradings the blocks hold *)
 Definition total (l : list nat) : nat := fold_right Nat.add 0 l.
-Definition blk_defined (b : blk) : bool :=
-  (length (b_acc b) =? 3) && forallb (fun l => negb (match l with [] => true | _ => false end)) (b_acc b).
-
-(** wires: (block index, axis, k); coincident = same end vertices in any order, different block *)
-Definition wire_ends (tb : tables) (b : blk) (a k : nat) : nat * nat :=
-  let '(c1, c2) := nth k (nth a (axis_pairs tb) []) (0, 0) in (nth c1 (b_verts b) 0, nth c2 (b_verts b) 0).
-Definition ends_eq (e f : nat * nat) : bool :=
-  ((fst e =? fst f) && (snd e =? snd f)) || ((fst e =? snd f) && (snd e =? fst f)).
 Definition axes : list nat := [0; 1; 2].
-Definition ks : list nat := [0; 1; 2; 3].
-Definition blk_wires (tb : tables) (b : blk) : list (nat * nat * nat) :=
-  flat_map (fun a => map (fun k => (wire_ends tb b a k, total (nth a (b_acc b) []))) ks) axes.
-Fixpoint pairwise {A} (f : A -> A -> bool) (l : list A) : bool :=
+Definition pblk (b : blk) : Propagate.blk := {| Propagate.verts := b_verts b; Propagate.uchops := b_chops b |}.
+Definition gstate (B : list blk) : Propagate.st :=
+  C12_Regrade.untab (map pblk B) (map b_wg B) (map b_ax B).
+Fixpoint imap {A B} (f : nat -> A -> B) (i : nat) (l : list A) : list B :=
   match l with
-  | [] => true
-  | x :: r => forallb (f x) r && pairwise f r
+  | [] => []
+  | a :: r => f i a :: imap f (S i) r
   end.
-Definition blocks_agree (tb : tables) (b1 b2 : blk) : bool :=
-  forallb (fun w1 => forallb (fun w2 => negb (ends_eq (fst w1) (fst w2)) || (snd w1 =? snd w2))
-                             (blk_wires tb b2)) (blk_wires tb b1).
-Definition consistent (tb : tables) (bs : list blk) : bool := pairwise (blocks_agree tb) bs.
+Definition store_gr (p : Propagate.st) (B : list blk) : list blk :=
+  imap (fun i b => {| b_src := b_src b; b_verts := b_verts b; b_chops := b_chops b;
+                      b_wg := C12_Regrade.tab_g p i; b_ax := C12_Regrade.tab_a (map pblk B) p i |}) 0 B.
+
+(** iteration order of Wire.coincident_list / Axis.neighbour_list as a function of the block list;
+    the code's is the insertion order of BlockList.update_neighbours *)
+Definition oracle : Type :=
+  list Propagate.blk -> (Propagate.wire -> list Propagate.wire) * (Propagate.axis -> list Propagate.axis).
+Definition ins_oracle : oracle := fun bs => (Propagate.o_coin_ins bs, Propagate.o_nbrs_ins bs).
+
+(** Axis.count, WireManagerBase.is_simple, Block.format_grading *)
+Definition blk_counts (b : blk) : list nat :=
+  map (fun a => match nth a (b_chops b) [] with
+                | [] => total (nth (4 * a) (b_wg b) [])
+                | c => total c
+                end) axes.
 
 (** ** the written file, parsed *)
 Record file := {
   f_verts : list pos;
-  f_blocks : list (list nat * list nat * list (list nat));   (* hex indexes, counts, section counts per axis *)
+  f_blocks : list (list nat * list nat * list (list nat));   (* hex indexes, counts, section counts: 3 lists (simpleGrading) or 12 (edgeGrading) *)
   f_patches : list (nat * nat * list nat * list (list nat)); (* name, type, settings, faces *)
   f_default : option (nat * nat);
   f_merged : list (nat * nat)
 }.
+Definition blk_simple (b : blk) : bool :=
+  forallb (fun a => forallb (fun k => list_eqb (nth (4 * a + k) (b_wg b) []) (nth (4 * a) (b_wg b) [])) [1; 2; 3]) axes.
+(** simpleGrading: wire 0 of each axis; edgeGrading: all twelve wires *)
+Definition blk_printed (b : blk) : list (list nat) :=
+  if blk_simple b then map (fun a => nth (4 * a) (b_wg b) []) axes
+  else map (fun i => nth i (b_wg b) []) (seq 0 12).
 Definition render (s : st) : file :=
   {| f_verts := map v_pos (verts s);
-     f_blocks := map (fun b => (b_verts b, map total (b_acc b), b_acc b)) (blocks s);
+     f_blocks := map (fun b => (b_verts b, blk_counts b, blk_printed b)) (blocks s);
      f_patches := map (fun p => (p_name p, p_kind p, p_set p, p_sides p)) (patches s);
      f_default := dflt s;
      f_merged := merged s |}.
@@ -253,7 +262,7 @@ Inductive call :=
 | Merge (master slave : nat) | Write.
 
 Inductive event := EFile (f : file) | EPoints (l : list (list pos)).
-Inductive error := E_runtime | E_undefined | E_inconsistent | E_index.
+Inductive error := E_runtime | E_undefined | E_inconsistent | E_index | E_model.
 Inductive outcome := Ok (s : st) (e : list event) | Err (e : error).
 
 Definition move_vertex (vs : list vtx) (i : nat) (d : pos) : list vtx :=
@@ -276,13 +285,21 @@ Fixpoint backport_ops_orig (V : list vtx) (bs : list blk) (dep : list nat) (stor
       end
   end.
 
-Definition write (c : cfg) (tb : tables) (s : st) : outcome :=
+(** [E_model]: the propagation loop ran out of fuel or the oracle is not an ordering of the coincident
+    wires / neighbour axes; neither happens with [ins_oracle] (PropagateTerm.run_terminates,
+    PropagateFinal.insertion_oracle_ok) *)
+Definition write_with (orc : oracle) (c : cfg) (tb : tables) (s : st) : outcome :=
   let s1 := if is_assembled s then s else assemble tb s in
   if negb (is_assembled s1) then Err E_runtime else
-  let s2 := with_lists s1 (verts s1) (map (grade_block c) (blocks s1)) (patches s1) in
-  if negb (forallb blk_defined (blocks s2)) then Err E_undefined else
-  if negb (consistent tb (blocks s2)) then Err E_inconsistent else
-  Ok s2 [EFile (render s2)].
+  let bs := map pblk (blocks s1) in
+  match C12_Regrade.grade bs (fst (orc bs)) (snd (orc bs)) (fx_grade c) (gstate (blocks s1)) with
+  | C12_Regrade.GOk p =>
+      let s2 := with_lists s1 (verts s1) (store_gr p (blocks s1)) (patches s1) in Ok s2 [EFile (render s2)]
+  | C12_Regrade.GUndefined => Err E_undefined
+  | C12_Regrade.GInconsistent => Err E_inconsistent
+  | _ => Err E_model
+  end.
+Definition write : cfg -> tables -> st -> outcome := write_with ins_oracle.
 
 Definition backport (c : cfg) (tb : tables) (s : st) : outcome :=
   if negb (is_assembled s) then Err E_runtime else
@@ -362,7 +379,7 @@ Definition error_eqb (a b : option error) : bool :=
   match a, b with
   | None, None => true
   | Some E_runtime, Some E_runtime | Some E_undefined, Some E_undefined
-  | Some E_inconsistent, Some E_inconsistent | Some E_index, Some E_index => true
+  | Some E_inconsistent, Some E_inconsistent | Some E_index, Some E_index | Some E_model, Some E_model => true
   | _, _ => false
   end.
 Definition result_eqb (a b : list event * option error) : bool :=
